@@ -66,7 +66,7 @@ def run(prop, tier, seed, repo):
         jobs = []
         for i in range(nsh):
             path = os.path.join(work, "batch_%d.json" % i)
-            recs = [{k2: s[k2] for k2 in ("tid", "names", "kinds", "file", "solos", "out", "report", "readback",
+            recs = [{k2: s[k2] for k2 in ("tid", "names", "kinds", "file", "tgs", "solos", "out", "report", "readback",
                                            "written", "cli")} for s in sessions[i::nsh]]
             obs.check_ints(recs)
             with open(path, "w") as f:
